@@ -231,6 +231,23 @@ def _uniform_inclusive(loc=0.0, scale=1.0):
     return ss.uniform(loc=loc, scale=np.nextafter(scale, scale + 1.0))
 
 
+class _NormalizedRandint:
+    """Distribution of ``(k - low) / (high - low)`` for ``k`` uniform over the integers ``low..high``.
+
+    Rounding a uniform draw of [0, 1] back to the integers gives both bounds half the probability
+    of the other values; drawing the integer first keeps the uniform prior (bounds included).
+    """
+
+    def __init__(self, low, high):
+        self.low = low
+        self.high = high
+        self._randint = ss.randint(low, high + 1)
+
+    def rvs(self, size=None, random_state=None):
+        k = self._randint.rvs(size=size, random_state=random_state)
+        return (k - self.low) / (self.high - self.low)
+
+
 def _normal_inclusive(loc=0.0, scale=1.0, lower=-2, upper=2):
     assert lower <= upper
     a, b = (lower - loc) / scale, (upper - loc) / scale
@@ -647,13 +664,14 @@ class Integer(Dimension):
             )
 
         if self.transform_ == "normalize":
-            self._rvs = _uniform_inclusive(0.0, 1.0)
             assert self.prior in ["uniform", "log-uniform"]
             if self.prior == "uniform":
+                self._rvs = _NormalizedRandint(self.low, self.high)
                 self.transformer = Pipeline(
                     [Identity(), Normalize(self.low, self.high, is_int=True)]
                 )
             else:
+                self._rvs = _uniform_inclusive(0.0, 1.0)
                 self.transformer = Pipeline(
                     [
                         LogN(self.base),
@@ -842,13 +860,11 @@ class Categorical(Dimension):
             else:
                 self.transformer = Identity()
             self.transformer.fit(self.categories)
-        if transform == "normalize":
-            self._rvs = _uniform_inclusive(0.0, 1.0)
-        else:
-            # XXX check that sum(prior) == 1
-            self._rvs = ss.rv_discrete(
-                values=(range(len(self.categories)), self.prior_)
-            )
+        # The categories are drawn from the prior whatever the transform: inverting a uniform
+        # draw of the normalized space would ignore the prior and give the first and the last
+        # category half the probability of the others.
+        # XXX check that sum(prior) == 1
+        self._rvs = ss.rv_discrete(values=(range(len(self.categories)), self.prior_))
 
     def __eq__(self, other):
         """Test if the dimension is equal to an other by checking if types, categories and priors are equal."""
@@ -888,11 +904,10 @@ class Categorical(Dimension):
         choices = self._rvs.rvs(size=n_samples, random_state=random_state)
 
         if isinstance(choices, numbers.Integral):
+            if self.transform_ == "normalize":
+                # a single sample of a normalized dimension keeps its 1-element array form
+                return np.array([self.categories[choices]])
             return self.categories[choices]
-        elif self.transform_ == "normalize" and isinstance(choices, float):
-            return self.inverse_transform([(choices)])
-        elif self.transform_ == "normalize":
-            return self.inverse_transform(list(choices))
         else:
             return [self.categories[c] for c in choices]
 
